@@ -21,12 +21,23 @@ type PropConfig struct {
 	Note        string   `json:"note"`        // explanation used when level is other
 	Extra       []string `json:"extra_funcs"` // extra function keys (beyond props tags)
 	MinObls     int      `json:"min_obligations"`
-	Bounded     []string `json:"bounded"`     // names of bounded stand-ins (run by the driver script)
+	Bounded     []BoundedSpec `json:"bounded"` // bounded stand-ins for parts not brought under contract (labelled bounded, never counted as proved)
 	Structural  []string `json:"structural"`  // structural checks
 	Assumptions []string `json:"assumptions"` // standing assumptions for the evidence
 	NotDecided  []string `json:"not_decided"`
 	Validations []string `json:"validations"` // groups of /verif/bin/validate run in the thorough tier (assumed contracts vs real dependencies)
 	Witness     string   `json:"witness"` // witness finder run only after an obligation failed, e.g. "parseprobe C08 4"
+}
+
+// BoundedSpec: a bounded stand-in. Cmd is a tool under /verif/bin with arguments; the tool prints
+// "SEARCH ... evaluated=<n> failures=<m>" and one "FAILING-INPUT <quoted input>: message" per failure.
+type BoundedSpec struct {
+	Name     string   `json:"name"`
+	Quick    []string `json:"quick"`
+	Thorough []string `json:"thorough"`
+	Bound    string   `json:"bound"`   // the stated bound
+	Covers   string   `json:"covers"`  // which part of the property it stands in for
+	Oracle   []string `json:"oracle"`  // command that replays one stored input: tool args..., the file is appended
 }
 
 type knownFinding struct {
@@ -335,6 +346,83 @@ func cmdCheck(args []string) {
 			lines = append(lines, fmt.Sprintf("VIOLATION property=%s replay=%s no-failing-input-found", id, p))
 		}
 	}
+	// bounded stand-ins (labelled bounded; a failure comes with the failing input, replayed on the real code by the tool)
+	var boundedEv []interface{}
+	for _, bs := range cfg.Bounded {
+		args := bs.Quick
+		if tier == "thorough" && len(bs.Thorough) > 0 {
+			args = bs.Thorough
+		}
+		if len(args) == 0 {
+			continue
+		}
+		limit := 10 * time.Minute
+		if tier == "thorough" {
+			limit = 60 * time.Minute
+		}
+		bctx, bcancel := context.WithTimeout(context.Background(), limit)
+		t0b := time.Now()
+		out, _ := exec.CommandContext(bctx, filepath.Join(verifDir, "bin", args[0]), args[1:]...).CombinedOutput()
+		bcancel()
+		evaluated, nfail, sawSearch := "", "", false
+		var firstIn, firstMsg string
+		for _, l := range strings.Split(string(out), "\n") {
+			if strings.HasPrefix(l, "SEARCH ") {
+				sawSearch = true
+				for _, kv := range strings.Fields(l) {
+					if strings.HasPrefix(kv, "evaluated=") {
+						evaluated = strings.TrimPrefix(kv, "evaluated=")
+					}
+					if strings.HasPrefix(kv, "failures=") {
+						nfail = strings.TrimPrefix(kv, "failures=")
+					}
+				}
+			}
+			if strings.HasPrefix(l, "FAILING-INPUT ") && firstIn == "" {
+				rest := strings.TrimPrefix(l, "FAILING-INPUT ")
+				if q, err := strconv.QuotedPrefix(rest); err == nil {
+					firstIn, _ = strconv.Unquote(q)
+					firstMsg = strings.TrimPrefix(rest[len(q):], ": ")
+				}
+			}
+		}
+		entry := map[string]interface{}{"name": bs.Name, "kind": "BOUNDED stand-in (not a proof)", "bound": bs.Bound, "covers": bs.Covers, "cmd": strings.Join(args, " "), "evaluated": evaluated, "failures": nfail, "wall_s": time.Since(t0b).Seconds()}
+		boundedEv = append(boundedEv, entry)
+		if !sawSearch || nfail != "0" {
+			isKnown := false
+			for _, kf := range kfs {
+				if !kf.Fixed && kf.Prop == id && kf.Obl == "bounded/"+bs.Name && firstIn != "" && strings.Contains(kf.Text, strconv.Quote(firstIn)) {
+					isKnown = true
+					lines = append(lines, fmt.Sprintf("KNOWN-FINDING: property=%s %s", id, strings.TrimPrefix(kf.Text, "finding: ")))
+				}
+			}
+			if isKnown {
+				known++
+				continue
+			}
+			violations++
+			rep := map[string]interface{}{"property": id, "obligation": "bounded/" + bs.Name, "bound": bs.Bound, "meaning": "the bounded stand-in found an input on which the property-level oracle fails against the real code"}
+			suffix := " no-failing-input-found"
+			if firstIn != "" {
+				dir := filepath.Join(verifDir, "replays", id)
+				os.MkdirAll(dir, 0o755)
+				f := filepath.Join(dir, "failing-input-"+sanitize(bs.Name)+".txt")
+				os.WriteFile(f, []byte(firstIn), 0o644)
+				rep["failing_input"] = firstIn
+				rep["failing_input_file"] = f
+				rep["oracle_verdict_on_real_code"] = firstMsg
+				if len(bs.Oracle) > 0 {
+					rep["replay_cmd"] = filepath.Join(verifDir, "bin", bs.Oracle[0]) + " " + strings.Join(bs.Oracle[1:], " ") + " " + f
+				}
+				suffix = ""
+			} else {
+				rep["reason"] = "the stand-in did not complete or reported failures without an input"
+				rep["output_tail"] = tailString(string(out), 2000)
+			}
+			p := writeReplay(id, "bounded-"+bs.Name, rep)
+			lines = append(lines, fmt.Sprintf("VIOLATION property=%s replay=%s%s", id, p, suffix))
+		}
+	}
 	// thorough tier: the assumed contracts this property rests on are exercised against the real
 	// dependencies (bounded unless the group's domain is finite; labelled as such)
 	var validations []interface{}
@@ -433,6 +521,9 @@ func cmdCheck(args []string) {
 	}
 	if len(validations) > 0 {
 		cov["assumed_contract_validations"] = validations
+	}
+	if len(boundedEv) > 0 {
+		cov["bounded_stand_ins"] = boundedEv
 	}
 	if level == "other" {
 		cov["explanation"] = cfg.Note
@@ -565,4 +656,11 @@ func runHistWitness(id string, fs []string) (input, msg, cmd string) {
 		}
 	}
 	return "", "", ""
+}
+
+func tailString(s string, n int) string {
+	if len(s) <= n {
+		return s
+	}
+	return s[len(s)-n:]
 }
